@@ -2,28 +2,26 @@ CONSTANTS
  MaxLen = 4
  ReadSizes = {1, 2, 3, 7}
  MaxDrops = 2
- MaxFails = 1
- MaxSeeks = 1
+ MaxFails = 2
+ MaxSeeks = 2
  MaxAgain = 1
- RetryLimit = 3
+ RetryLimit = 2
  Schemes = {"reg", "ocidir"}
- Vias = {"tarraw", "tarwalk", "tariter"}
+ Vias = {"reader"}
  Withs = {TRUE, FALSE}
- Chunks = {1, 7}
+ Chunks = {1, 2, 7}
  LyingSizes = TRUE
- InlineData = FALSE
+ InlineData = TRUE
  Conc = 3
- Probes = FALSE
- Exts = {0}
+ Probes = TRUE
+ Exts = {0, 1, 2}
  KeepSlots = FALSE
  TarUnverified = FALSE
  MTs = {TRUE, FALSE}
  DigestHdrs = {"absent", "echo", "served", "servedother", "garbage"}
- Sts = {"std"}
- DropKinds = {"ueof"}
+ Sts = {"std", "alt"}
+ DropKinds = {"ueof", "reset"}
 INIT GInit
 NEXT GNext
 INVARIANTS Emit
 CHECK_DEADLOCK FALSE
-CONSTANTS
- Replies <- HonestReplies
